@@ -24,6 +24,8 @@ pub assume_specification<T>[ std::mem::replace::<T> ](dest: &mut T, src: T) -> (
 // T1 + R2: copied from parse_locales/mod.rs, `Rc<str>` -> `String`
 //@@ indexer_struct
 
+pub open spec fn table_of(v: Vec<String>) -> Seq<Seq<char>> { Seq::new(v@.len(), |i: int| v@[i]@) }
+
 impl StringIndexer {
     /// the exported table: the text at each index
     pub open spec fn table(&self) -> Seq<Seq<char>> {
